@@ -1008,6 +1008,20 @@ def scen_oci(g, n):
     return out
 
 
+def scen_oci_e2e(g, n):
+    """the same method x URL stream as `oci`, as requests to the example's own server (harness-oci)"""
+    out = []
+    for l in scen_oci(g, n):
+        t = l.split()
+        if t[0] == 'oci':
+            out.append('e2e %s %s' % (bytes.fromhex(t[1][1:]).decode(), t[2]))
+    # every method on the bare API root and on one URL of each shape
+    for m in OCI_METHODS:
+        for u in ['/v2', '/v2/', '/v2/a/blobs/sha256:ab', '/v2/a/b/manifests/latest', '/v2/a/blobs/uploads', '/v2/a/blobs/uploads/u1', '/v2/a/tags/list']:
+            out.append('e2e %s %s' % (m, hx(u.encode())))
+    return out
+
+
 def scen_ociname_exhaustive(maxlen):
     out = []
     alpha = ['a', '0', '.', '_', '-', '/', 'A']
@@ -1026,7 +1040,7 @@ def make(scen, seed, n):
         return scen_ociname_exhaustive(int(scen[8:]))
     table = {'hist': scen_hist, 'fresh': scen_fresh, 'clone': scen_clone, 'threads': scen_threads,
              'longpath': scen_longpath, 'parse': scen_parse_random, 'builtin': scen_builtin, 'groups': scen_groups,
-             'single': scen_single, 'oci': scen_oci, 'conflict': scen_conflict, 'roundtrip': scen_roundtrip}
+             'single': scen_single, 'oci': scen_oci, 'ocie2e': scen_oci_e2e, 'conflict': scen_conflict, 'roundtrip': scen_roundtrip}
     return table[scen](g, n)
 
 
